@@ -196,6 +196,8 @@ fn build_opts(cfg: &GenCfg, ix: usize) -> BoxedStrategy<BuildOpts> {
             rng_seed,
             threads,
             cancel_at: if p < cancel_pct { Some(k) } else { None },
+            // one build in seven is called twice on its builder (derived from the drawn seed: no extra choice to shrink)
+            twice: rng_seed % 7 == 0,
         })
         .boxed()
 }
